@@ -34,20 +34,24 @@ func facts() map[string]any {
 		}
 		return 9
 	}
-	// complete table of header classes: QR x opcode 0..15 x counts {0,1,2,3}^4
+	// complete table of header classes: QR x opcode 0..15 x counts {0,1,2,3}^4.
+	// Entry i = ((qr*16+op)*4+qd)*4+an holds the 16 verdicts for (ns, ar) as
+	// base-4 digits, digit position ns*4+ar (least significant first).
 	var table []int
 	for qr := 0; qr < 2; qr++ {
 		for op := 0; op < 16; op++ {
-			for qi, qd := range countVals {
-				for ai, an := range countVals {
-					for ni, ns := range countVals {
-						for ri, ar := range countVals {
+			for _, qd := range countVals {
+				for _, an := range countVals {
+					packed, mul := 0, 1
+					for _, ns := range countVals {
+						for _, ar := range countVals {
 							fl := uint16(qr)<<15 | uint16(op)<<11
 							v := norm(server.VerifC06AcceptHeader(fl, uint16(qd), uint16(an), uint16(ns), uint16(ar)))
-							row := ((((((qr*16+op)*4+qi)*4+ai)*4+ni)*4 + ri) * 4) + v
-							table = append(table, row)
+							packed += v * mul
+							mul *= 4
 						}
 					}
+					table = append(table, packed)
 				}
 			}
 		}
